@@ -392,3 +392,6 @@ def run(ctx):
         ctx.check(tests == {"np.isscalar(<operand>)"}, "C06.e", f"{owner}:scalar-test", "branches on np.isscalar(operand)",
                   f"scalar test is {sorted(tests)}; the histogram operators and Statistics.__mul__ must agree on np.isscalar "
                   "(numpy scalars such as np.int64 are scalars too)", (sm if owner.startswith("Stat") else HB.methods[owner.split('.')[1]]).where)
+
+    # shared with C18.b: the validating setters refuse before they store (a refused negative scaling leaves nothing behind)
+    ctx.borrow("C18", ("HistogramBase.frequencies.setter", "HistogramBase.errors2.setter"), "C06.d", floor=4)
